@@ -77,3 +77,33 @@ func GuardT(harness string, trace any, f func() *Failure) *Failure {
 	defer done()
 	return Guard(f)
 }
+
+// ForStrings calls f for every string over alpha of length 0..maxLen without
+// materialising the list (strings of one length are indexed in base
+// len(alpha) and split over the workers). f must not retain s.
+func ForStrings(alpha string, maxLen, workers int, f func(s []byte)) int64 {
+	var total int64
+	for L := 0; L <= maxLen; L++ {
+		count := 1
+		for i := 0; i < L; i++ {
+			count *= len(alpha)
+		}
+		total += int64(count)
+		parts := workers * 8
+		if parts > count {
+			parts = count
+		}
+		ParallelFor(parts, workers, func(w int) {
+			buf := make([]byte, L)
+			for idx := w; idx < count; idx += parts {
+				x := idx
+				for k := L - 1; k >= 0; k-- {
+					buf[k] = alpha[x%len(alpha)]
+					x /= len(alpha)
+				}
+				f(buf)
+			}
+		})
+	}
+	return total
+}
